@@ -135,9 +135,14 @@ FUNCTIONS['_XLFN.DECIMAL'] = FUNCTIONS['DECIMAL'] = wrap_ufunc(
 )
 
 
+def _int2num(v):
+    # An integer beyond 64 bits is no numpy number (e.g., `INT(1E+20)`).
+    return float(v) if abs(v) >= 2 ** 63 else v
+
+
 def xeven(x):
     v = math.ceil(abs(x) / 2.) * 2
-    return -v if x < 0 else v
+    return _int2num(-v if x < 0 else v)
 
 
 FUNCTIONS['EVEN'] = wrap_ufunc(xeven)
@@ -197,7 +202,7 @@ def xgcd(*args):
 
 
 FUNCTIONS['GCD'] = wrap_func(xgcd)
-FUNCTIONS['INT'] = wrap_ufunc(math.floor)
+FUNCTIONS['INT'] = wrap_ufunc(lambda x: _int2num(math.floor(x)))
 FUNCTIONS['ISO.CEILING'] = FUNCTIONS['CEILING.PRECISE']
 
 
@@ -290,7 +295,7 @@ FUNCTIONS['_XLFN.MUNIT'] = FUNCTIONS['MUNIT'] = wrap_ufunc(
 
 def xodd(x):
     v = math.ceil(abs(x)) // 2 * 2 + 1
-    return -v if x < 0 else v
+    return _int2num(-v if x < 0 else v)
 
 
 FUNCTIONS['ODD'] = wrap_ufunc(xodd)
